@@ -518,12 +518,13 @@ def gen_last_ref(seed, mode="loop"):
     sc = Sc(mode, "last reference dropped inside a callback seed=%d" % seed)
     driven_skeleton(sc)
     steps = [[] for _ in range(8)]
-    for i, kind in enumerate(r.sample(["start", "stop", "eval", "evt", "start", "eval"], r.randrange(2, 5)), start=1):
+    last = []
+    for i, kind in enumerate(r.sample(["start", "stop", "eval", "evt", "start", "eval", "flush", "flush"], r.randrange(2, 5)), start=1):
         sc.mod(i, "lr%d" % i, r.choice([0, MOD_NAME_DUP, MOD_UD_AUTOFREE]), 7)
         for k in ("eval", "start", "stop"):
             sc.cb(i, k, "*", [], ret=1)
         sc.cb(i, "evt", "*", [])
-        sc.cb(i, kind, 0, [("dereg", -1)], ret=r.choice([0, 1]))
+        sc.cb(i, "evt" if kind == "flush" else kind, 0, [("dereg", -1)], ret=r.choice([0, 1]))
         sc.main += [("reg", i), ("obs_drop_keep_handle", i)]
         if kind == "start":
             steps[r.randrange(0, 3)].append(("start", i))
@@ -533,8 +534,15 @@ def gen_last_ref(seed, mode="loop"):
         elif kind == "evt":
             sc.main.append(("start", i))
             steps[r.randrange(0, 3)].append(("tell", DRV, i, sc.pay(), 0))
+        elif kind == "flush":
+            # the handler runs inside the final flush (message sent in the step that quits), optionally with a poison
+            # pill queued behind the message
+            sc.main.append(("start", i))
+            last.append(("tell", DRV, i, sc.pay(), 0))
+            if r.random() < 0.7:
+                last.append(("pill", DRV, i))
         # eval: the loop's first pass calls it
-    driven_finish(sc, steps, rng=r)
+    driven_finish(sc, steps, rng=r, last_ops=last)
     finalize_main(sc)
     return sc
 
